@@ -71,7 +71,7 @@ func runC11(c *Ctx) {
 	mon.DiscardStdLog()
 	n := c.Pick(1000, 100000)
 	var mu sync.Mutex
-	var evals, nontriv, touching, nonInterf, aliased int64
+	var evals, nontriv, touching, nonInterf, aliased, directPairs int64
 	distinct := mon.NewDistinct(4_000_000)
 
 	// warning parity (single-threaded log monitor)
@@ -104,7 +104,8 @@ func runC11(c *Ctx) {
 		g := &pairRig{}
 		r := mon.NewRng(mon.Hash(uint64(c.Seed), uint64(si), 0xC11))
 		g.refill(r.U64())
-		var lev, lnt, ltouch, lni, lalias int64
+		var lev, lnt, ltouch, lni, lalias, ldirect int64
+		var dmem z80.DumbMemory
 		for k := 0; k < n; k++ {
 			if k&1023 == 1023 {
 				g.refill(r.U64())
@@ -229,6 +230,49 @@ func runC11(c *Ctx) {
 					}
 				}
 			}
+			// every 8th pair again on a 64 KiB z80.DumbMemory handed to the CPU directly: the
+			// mirror law must hold there too (a type-specific fast path in one table only)
+			if bad == "" && panD == nil && k%8 == 1 {
+				if dmem == nil {
+					dmem = make(z80.DumbMemory, 65536)
+				}
+				g.memA.Reset()
+				copy(dmem, g.memA.Data[:])
+				for i, b := range dd {
+					dmem[pre.PC+uint16(i)] = b
+				}
+				cd := z80.CPU{States: pre, Memory: dmem, IO: &mon.IO{Seed: ioSeed}}
+				var pd interface{}
+				func() {
+					defer func() { pd = recover() }()
+					cd.Step()
+				}()
+				imgD := append([]uint8(nil), dmem...)
+				copy(dmem, g.memA.Data[:])
+				for i, b := range fd {
+					dmem[pre.PC+uint16(i)] = b
+				}
+				cf := z80.CPU{States: swapIdx(pre), Memory: dmem, IO: &mon.IO{Seed: ioSeed}}
+				var pf interface{}
+				func() {
+					defer func() { pf = recover() }()
+					cf.Step()
+				}()
+				ldirect++
+				switch {
+				case (pd == nil) != (pf == nil):
+					bad = "only one form panics on DumbMemory handed over directly"
+				case pd == nil && (swapIdx(cf.States) != cd.States || cf.HALT != cd.HALT):
+					bad = "post-states differ after un-mirroring on DumbMemory handed over directly"
+				case pd == nil:
+					for a := 0; a < 65536; a++ {
+						if imgD[a] != dmem[a] && uint16(a) != pre.PC {
+							bad = "memory images differ on DumbMemory handed over directly"
+							break
+						}
+					}
+				}
+			}
 			if postD != pre || len(logD) > 2 {
 				lnt++
 				if k < 2048 || k%5 == 0 {
@@ -260,6 +304,7 @@ func runC11(c *Ctx) {
 		touching += ltouch
 		nonInterf += lni
 		aliased += lalias
+		directPairs += ldirect
 		mu.Unlock()
 	})
 	c.R.Set("evaluations", evals)
@@ -267,6 +312,7 @@ func runC11(c *Ctx) {
 	c.R.Set("nontrivial_pairs", nontriv)
 	c.R.Set("distinct_nontrivial", distinct.N())
 	c.R.Set("non_interference_reruns", nonInterf)
+	c.R.Set("pairs_also_on_DumbMemory_directly", directPairs)
 	c.R.Set("skipped_operand_aliases_prefix_byte", aliased)
 	c.R.Set("pairs_using_index_register", touching)
 	c.R.Set("second_bytes_covered", int64(255))
@@ -274,6 +320,6 @@ func runC11(c *Ctx) {
 	c.R.Set("states_per_byte", int64(n))
 	c.R.Set("exhaustive", false)
 	c.R.Set("exhaustive_over", "all 255 second bytes after DD/FD (CB handled via the 256 fourth bytes of DDCB/FDCB); pre-states sampled")
-	c.R.Set("rule", "for every second byte after DD/FD and every fourth byte after DDCB/FDCB (in scope or not), n boundary-biased states S with all 256 F and displacements cycled: Step the DD form from S and the FD form from swap(S) on identical memories/devices; swap(post_FD) must equal post_DD, HALT equal, memory access sequence equal address-for-address and value-for-value except the prefix byte's own value, port sequence equal, written images equal; then re-run each form with the other index register perturbed: nothing but that register may differ and it must stay unchanged; 'invalid code' warnings must agree pairwise. Non-trivial = the Step changed a register other than none (post != pre) or made a data access; distinct = distinct (byte, d, case, IX, IY) hashes (first 2048 per byte then 1/5 sampled: a lower bound)")
+	c.R.Set("rule", "for every second byte after DD/FD and every fourth byte after DDCB/FDCB (in scope or not), n boundary-biased states S with all 256 F and displacements cycled: Step the DD form from S and the FD form from swap(S) on identical memories/devices; swap(post_FD) must equal post_DD, HALT equal, memory access sequence equal address-for-address and value-for-value except the prefix byte's own value, port sequence equal, written images equal; then re-run each form with the other index register perturbed: nothing but that register may differ and it must stay unchanged; 'invalid code' warnings must agree pairwise; every 8th pair is repeated on a 64 KiB z80.DumbMemory handed to the CPU directly. Non-trivial = the Step changed a register other than none (post != pre) or made a data access; distinct = distinct (byte, d, case, IX, IY) hashes (first 2048 per byte then 1/5 sampled: a lower bound)")
 	c.R.Assume("no reference model involved: a defect that is mirrored identically in both tables is C01's business")
 }
